@@ -417,3 +417,228 @@ func init() {
 			return out
 		}})
 }
+
+// VACGUARD — a guard does not compare a value with itself.
+//
+// `levelP := shareOut.LevelP()` followed by `if shareOut.LevelP() != levelP { return err }` can never fire: the failure
+// its message describes ("min(skIn, skOut) LevelP != shareOut LevelP") is not tested at all, and the input it was meant
+// to refuse goes on to an out-of-range index. Engler's contradiction rule: the code states a belief (this can fail) and
+// makes it impossible to act on.
+//
+// Rule: an if-condition that leaves with an error or a panic and compares a local v with an expression E is reported
+// when v's only definition in the function is `v := E` (same text), E is a chain of selectors and argument-less method
+// calls, and no statement between the definition and the test mentions the root object of E (so that E cannot have
+// changed). The same for a comparison of two texts that are identical (`a.X() != a.X()`).
+func scanVacGuard(c *core.Ctx) []ob {
+	var out []ob
+	n := 0
+	pureChain := func(e ast.Expr) bool {
+		ok := true
+		ast.Inspect(e, func(x ast.Node) bool {
+			switch v := x.(type) {
+			case *ast.CallExpr:
+				if len(v.Args) != 0 {
+					ok = false
+				}
+			case *ast.Ident, *ast.SelectorExpr, *ast.ParenExpr:
+			default:
+				if x != nil {
+					ok = false
+				}
+			}
+			return ok
+		})
+		return ok
+	}
+	c.FuncDecls(func(pk *packages.Package, file *ast.File, fd *ast.FuncDecl) {
+		if fd.Body == nil || fileIsTestSupport(c.Program, fd.Pos()) || inExamples(pk) {
+			return
+		}
+		info := pk.TypesInfo
+		fkey := core.FuncKey(pk, fd)
+		// single definitions of locals
+		defs := map[types.Object][]*ast.AssignStmt{}
+		defRhs := map[*ast.AssignStmt]map[types.Object]ast.Expr{}
+		ast.Inspect(fd.Body, func(x ast.Node) bool {
+			switch as := x.(type) {
+			case *ast.AssignStmt:
+				for i, l := range as.Lhs {
+					id, ok := unparen(l).(*ast.Ident)
+					if !ok {
+						continue
+					}
+					o := info.Defs[id]
+					if o == nil {
+						o = info.Uses[id]
+					}
+					if o == nil {
+						continue
+					}
+					defs[o] = append(defs[o], as)
+					if len(as.Lhs) == len(as.Rhs) && as.Tok == token.DEFINE {
+						if defRhs[as] == nil {
+							defRhs[as] = map[types.Object]ast.Expr{}
+						}
+						defRhs[as][o] = as.Rhs[i]
+					}
+				}
+			case *ast.IncDecStmt:
+				if id, ok := unparen(as.X).(*ast.Ident); ok {
+					if o := info.Uses[id]; o != nil {
+						defs[o] = append(defs[o], nil)
+					}
+				}
+			}
+			return true
+		})
+		pm := parentMap(fd.Body)
+		ord := 0
+		ast.Inspect(fd.Body, func(x ast.Node) bool {
+			is, ok := x.(*ast.IfStmt)
+			if !ok {
+				return true
+			}
+			// the branch must leave with an error or a panic
+			leaves := false
+			for _, st := range is.Body.List {
+				switch s := st.(type) {
+				case *ast.ReturnStmt:
+					leaves = len(s.Results) > 0
+				case *ast.ExprStmt:
+					if call, ok := s.X.(*ast.CallExpr); ok {
+						if id, ok := unparen(call.Fun).(*ast.Ident); ok && id.Name == "panic" {
+							leaves = true
+						}
+					}
+				}
+			}
+			if !leaves {
+				return true
+			}
+			var check func(e ast.Expr)
+			check = func(e ast.Expr) {
+				be, ok := unparen(e).(*ast.BinaryExpr)
+				if !ok {
+					return
+				}
+				switch be.Op {
+				case token.LAND, token.LOR:
+					check(be.X)
+					check(be.Y)
+					return
+				case token.EQL, token.NEQ, token.LSS, token.GTR, token.LEQ, token.GEQ:
+				default:
+					return
+				}
+				n++
+				ord++
+				xs, ys := exprString(be.X), exprString(be.Y)
+				vac := ""
+				if xs == ys && pureChain(be.X) {
+					vac = fmt.Sprintf("both sides of `%s` are the same expression", exprString(be))
+				}
+				for _, pr := range [][2]ast.Expr{{be.X, be.Y}, {be.Y, be.X}} {
+					id, ok := unparen(pr[0]).(*ast.Ident)
+					if !ok || vac != "" {
+						continue
+					}
+					o := info.Uses[id]
+					if o == nil || len(defs[o]) == 0 || defs[o][0] == nil {
+						continue
+					}
+					// the definition must be the only one that can reach the test: every other one comes after it
+					// (the test is a statement of the function's top-level blocks, checked below, hence not in a loop
+					// that could carry a later definition back)
+					early := 0
+					for _, d := range defs[o] {
+						if d == nil || d.Pos() < is.Pos() {
+							early++
+						}
+					}
+					inLoop := false
+					for p := pm[ast.Node(is)]; p != nil; p = pm[p] {
+						switch p.(type) {
+						case *ast.ForStmt, *ast.RangeStmt:
+							inLoop = true
+						}
+					}
+					if early != 1 || inLoop && len(defs[o]) > 1 {
+						continue
+					}
+					as := defs[o][0]
+					rhs := defRhs[as][o]
+					if rhs == nil || exprString(rhs) != exprString(pr[1]) || !pureChain(rhs) || as.Pos() > is.Pos() {
+						continue
+					}
+					if _, isCall := unparen(rhs).(*ast.CallExpr); !isCall {
+						if _, isSel := unparen(rhs).(*ast.SelectorExpr); !isSel {
+							continue
+						}
+					}
+					root := rootIdent(rhs)
+					if root == nil {
+						continue
+					}
+					// nothing between the definition and the test may touch the root object: both must be statements of
+					// one block, and the statements in between must not mention the root
+					blk, _ := pm[ast.Node(as)].(*ast.BlockStmt)
+					if blk == nil || pm[ast.Node(is)] != ast.Node(blk) {
+						continue
+					}
+					touched, between := false, false
+					for _, st := range blk.List {
+						if st == ast.Stmt(as) {
+							between = true
+							continue
+						}
+						if st == ast.Stmt(is) {
+							break
+						}
+						if between {
+							ast.Inspect(st, func(y ast.Node) bool {
+								if yid, ok := y.(*ast.Ident); ok && info.Uses[yid] == info.Uses[root] {
+									touched = true
+								}
+								return true
+							})
+						}
+					}
+					if !touched {
+						vac = fmt.Sprintf("`%s` compares %s with the expression it has just been defined as (%s)", exprString(be), id.Name, c.Rel(as.Pos()))
+					}
+				}
+				key := fmt.Sprintf("VACGUARD:%s#%d", fkey, ord)
+				if vac != "" {
+					out = append(out, withProps(violOb("VACGUARD", "VACGUARD:"+fkey+"#"+exprString(be), c.Rel(be.Pos()), fmt.Sprintf("%s: %s: the guard can never fire, so the failure it is written for is not refused", fkey, vac)), propsForKey(fkey)...))
+				} else {
+					_ = key
+				}
+			}
+			check(is.Cond)
+			return true
+		})
+	})
+	c.Stats["vacguard_comparisons"] = n
+	out = append(out, okOb("VACGUARD", "VACGUARD:module", "", fmt.Sprintf("%d comparisons in failing guards examined, none compares a value with itself", n), true))
+	return out
+}
+
+func init() {
+	core.Register(&core.Rule{Name: "VACGUARD", Wide: true, Props: []string{"C14", "C04", "C19"},
+		Doc: "no if-condition that leaves with an error or a panic compares a local with the very expression it has just been defined as (v := E; if E != v), or an expression with itself: such a guard never fires and the failure it is written for is not refused",
+		Run: func(c *core.Ctx) []ob {
+			out := scanVacGuard(c)
+			for i := range out {
+				if out[i].Key == "VACGUARD:module" {
+					out[i] = withProps(out[i], "C14", "C04", "C19")
+				}
+			}
+			for _, o := range core.Floor("VACGUARD", nil, "comparisons in failing guards", c.Stats["vacguard_comparisons"], 300) {
+				out = append(out, withProps(o, "C14"))
+			}
+			for _, o := range control(c, "VACGUARD", scanVacGuard, "lvfixture.checkShareLevel") {
+				out = append(out, withProps(o, "C14"))
+			}
+			return out
+		}})
+}
